@@ -13,9 +13,9 @@ import (
 
 func init() {
 	register(&propSpec{
-		ID:    "C02",
-		Level: "other",
-		Run:   runC02,
+		ID:          "C02",
+		Level:       "other",
+		Run:         runC02,
 		Explanation: "Per-opcode conformance by term identity: for each of the InstructionRunner implementers the abstract interpreter (E-TERM) computes the normal-form term of Run/MemoryRead/MemoryWrite/ReadRegisters/WriteRegisters, rewrites receiver fields into assembly operands through the parser's binding, and compares it syntactically with the RV32IM row (operators carry Go operand types, so signedness, shift kind and 5-bit count masking are part of the term). A matched term is an identity of expressions over all 2^64 operand pairs, not a sample. Also: exact read/write sets, zero-register filter, purity (no write to ctx/globals/receiver), enumeration tables.",
 		Assumptions: []string{
 			"Go's specified semantics of integer operators and conversions",
